@@ -37,7 +37,7 @@ structure Dev where
   genRoot : Bool
   deriving DecidableEq, Repr
 
-def Dev.current : Dev := ⟨true, true, true, true⟩
+def Dev.current : Dev := ⟨false, true, false, false⟩   -- fixed in /repo: lastIndex (c0c8224), tailSkip (2f372fe), genRoot (36b721b)
 def Dev.fixed : Dev := ⟨false, false, false, false⟩
 
 /-! ## asInt, asFloat -/
